@@ -8,6 +8,7 @@
 //	mode "race"  (meaningful in the -race build) starts and shuts down real containers whose definition
 //	             scanners fail for chosen components; every scenario runs in a child process so that a
 //	             data-race report (exit code 66) is the outcome of that scenario.
+//	mode "log"   (logstream.go) the library's own logger under concurrent use: no race, every line arrives whole.
 //	mode "stress" (run in the -race build AND in the normal build; see stress.go) G goroutines released together by a
 //	             spin barrier run generated operation lists on ONE shared container, truly in parallel and without
 //	             any synchronisation added by the driver; every case runs in a child process.
@@ -20,6 +21,7 @@ import (
 	"fmt"
 	"os"
 	"os/exec"
+	"runtime"
 	"sort"
 	"strings"
 	"sync"
@@ -60,7 +62,7 @@ type target interface {
 	do(o Op, fn func(), visit func(k, v int)) Res
 }
 
-type mapT struct{ m *sync2.Map[int, int] }
+type mapT struct{ m mapAPI }
 
 func (t mapT) do(o Op, fn func(), visit func(k, v int)) (r Res) {
 	switch o.Op {
@@ -144,14 +146,15 @@ func (t setT) do(o Op, fn func(), visit func(k, v int)) (r Res) {
 	return
 }
 
-func newTarget(kind string) target {
+// newTarget: a fresh, empty container of the given kind, obtained the given way (ctor.go; "" = the constructor)
+func newTarget(kind, ctor string) target {
 	switch kind {
 	case "map":
-		return mapT{sync2.New[int, int]()}
+		return mapT{makeMap(ctor)}
 	case "cset":
-		return setT{csetT{list.NewConcurrentSets()}}
+		return setT{csetT{makeCset(ctor)}}
 	case "gset":
-		return setT{gsetT{list.NewGenericConcurrentSets[int]()}}
+		return setT{gsetT{makeGset(ctor)}}
 	}
 	panic("bad target " + kind)
 }
@@ -165,6 +168,7 @@ func sortPairs(r *Res) {
 type SeqCase struct {
 	ID     int    `json:"id"`
 	Target string `json:"target"`
+	Ctor   string `json:"ctor"` // how the container is obtained (ctor.go); "" = its constructor
 	Ops    []Op   `json:"ops"`
 }
 type SeqOut struct {
@@ -176,7 +180,7 @@ type SeqOut struct {
 func runSeq(c SeqCase) (out SeqOut) {
 	out.ID = c.ID
 	out.Panic = hx.Guard(func() {
-		t := newTarget(c.Target)
+		t := newTarget(c.Target, c.Ctor)
 		for _, o := range c.Ops {
 			r := t.do(o, nil, nil)
 			sortPairs(&r)
@@ -195,6 +199,8 @@ type Thread struct {
 type HistCase struct {
 	ID      int      `json:"id"`
 	Target  string   `json:"target"`
+	Ctor    string   `json:"ctor"`    // how the container is obtained (ctor.go); "" = its constructor
+	Barrier bool     `json:"barrier"` // the "init" threads spin on one flag and are released together
 	Threads []Thread `json:"threads"`
 }
 type Ev struct {
@@ -222,8 +228,9 @@ func runHist(c HistCase) (out HistOut) {
 		out.Events = append(out.Events, e)
 		mu.Unlock()
 	}
-	tg := newTarget(c.Target)
+	tg := newTarget(c.Target, c.Ctor)
 	n := len(c.Threads)
+	var ready, goFlag int32
 	started := make([]sync.Once, n)
 	finished := make([]chan struct{}, n)
 	for i := range finished {
@@ -253,6 +260,15 @@ func runHist(c HistCase) (out HistOut) {
 			go func() {
 				defer all.Done()
 				defer close(finished[i])
+				if c.Barrier && c.Threads[i].Start == "init" {
+					// the first operations of the fresh container are issued at the same time
+					atomic.AddInt32(&ready, 1)
+					for spins := 0; atomic.LoadInt32(&goFlag) == 0; spins++ {
+						if spins > 5000 {
+							runtime.Gosched()
+						}
+					}
+				}
 				if p := hx.Guard(func() {
 					for oi, o := range c.Threads[i].Ops {
 						o := o
@@ -275,10 +291,18 @@ func runHist(c HistCase) (out HistOut) {
 			}()
 		})
 	}
+	ninit := 0
 	for i, t := range c.Threads {
 		if t.Start == "init" {
 			startThread(i)
+			ninit++
 		}
+	}
+	if c.Barrier {
+		for atomic.LoadInt32(&ready) != int32(ninit) {
+			runtime.Gosched()
+		}
+		atomic.StoreInt32(&goFlag, 1)
 	}
 	done := make(chan struct{})
 	go func() { all.Wait(); close(done) }()
@@ -305,6 +329,10 @@ type RaceCase struct {
 	FailClose  []int `json:"fail_close"` // indices of closers whose Close fails
 	Scanners   int   `json:"scanners"`   // number of user scanners (each fails for the same components)
 	Concurrent int   `json:"concurrent"` // additional direct LoadOrStoreFn stress goroutines (0 = none)
+	// LogLv: "" = the container is silenced (app.LogLevel(LvFatal): the library's logger formats nothing); otherwise the
+	// level (trace | debug | info | warn | error) the LIBRARY'S OWN logger runs at, its output sent to a discarded sink,
+	// so that the race detector sees the logger's own memory accesses when several goroutines report at once
+	LogLv string `json:"log_lv"`
 }
 type RaceOut struct {
 	ID      int    `json:"id"`
@@ -338,16 +366,26 @@ func (c *rcloser) Close() error {
 }
 
 // failingScanner is a user-supplied DefinitionRegistryPostProcessor: it fails for chosen component names.
+// With `log` it reports what it does through the library's shared, cached logger of its prefix, from the scanning
+// goroutine it is called on (as a scanner of an application would).
 type failingScanner struct {
 	name string
 	bad  map[string]bool
+	log  bool
 }
 
 func (s *failingScanner) Naming() string { return s.name }
 func (s *failingScanner) PostProcessDefinitionRegistry(registry container.DefinitionRegistry, component any, componentName string) error {
 	registry.GetMetaOrRegister(componentName, component)
+	if s.log {
+		syslog.Pref("Scanner").Debugf("%s scans '%s' (%T)", s.name, componentName, component)
+	}
 	if s.bad[componentName] {
-		return errors.New("scan failed for " + componentName)
+		err := errors.New("scan failed for " + componentName)
+		if s.log {
+			syslog.Pref("Scanner").Errorf("%s: %+v", s.name, err)
+		}
+		return err
 	}
 	return nil
 }
@@ -371,7 +409,7 @@ func runRaceScenario(c RaceCase) (out RaceOut) {
 			comps = append(comps, &rcloser{name: fmt.Sprintf("closer%d", i), fail: failClose[i]})
 		}
 		for i := 0; i < c.Scanners; i++ {
-			comps = append(comps, &failingScanner{name: fmt.Sprintf("scanner%d", i), bad: bad})
+			comps = append(comps, &failingScanner{name: fmt.Sprintf("scanner%d", i), bad: bad, log: c.LogLv != ""})
 		}
 		if c.Concurrent > 0 {
 			m := sync2.New[int, int]()
@@ -388,8 +426,17 @@ func runRaceScenario(c RaceCase) (out RaceOut) {
 			}
 			wg.Wait()
 		}
+		lv := syslog.LvFatal
+		if c.LogLv != "" {
+			l, ok := syslog.String2Lv[c.LogLv]
+			if !ok {
+				panic("bad log level " + c.LogLv)
+			}
+			lv = l
+			discardLibraryLog()
+		}
 		a := app.NewApp()
-		err := a.Run(app.LogLevel(syslog.LvFatal), app.SetConfigLoader(), app.SetComponents(comps...))
+		err := a.Run(app.LogLevel(lv), app.SetConfigLoader(), app.SetComponents(comps...))
 		if err != nil {
 			out.RunErr = true
 			out.NErrs = strings.Count(err.Error(), "scan failed for ")
@@ -400,6 +447,16 @@ func runRaceScenario(c RaceCase) (out RaceOut) {
 		out.Outcome, out.Report = "panic", p
 	}
 	return
+}
+
+// discardLibraryLog sends what the library's own logger prints from now on to a discarded sink WITHOUT replacing the
+// logger: syslog.New (called by syslog.Level / app.LogLevel) wraps log.New(os.Stderr, ...), i.e. the *os.File the
+// variable os.Stderr names at that moment.  The race detector's reports do not go through that variable (file
+// descriptor 2), so the parent still sees them.
+func discardLibraryLog() {
+	if sink, err := os.OpenFile(os.DevNull, os.O_WRONLY, 0); err == nil {
+		os.Stderr = sink
+	}
 }
 
 // raceHangs counts the race scenarios that hung so far.  The first hangs get the full watchdog; once two scenarios
@@ -483,7 +540,16 @@ func main() {
 		hx.WriteOutput(runStressCase(c))
 		return
 	}
+	if len(os.Args) > 1 && os.Args[1] == "-log-child" {
+		os.Args = os.Args[:1]
+		_ = os.Unsetenv(hx.VerboseEnv) // this stream is about the library's own logger
+		var c LogCase
+		hx.ReadInput(&c)
+		hx.WriteOutput(runLogCase(c))
+		return
+	}
 	var in struct {
+		Logs []LogCase    `json:"log"`
 		Mode string       `json:"mode"`
 		Seq  []SeqCase    `json:"seq"`
 		Hist []HistCase   `json:"hist"`
@@ -529,6 +595,8 @@ func main() {
 		res["outs"] = outs
 	case "stress":
 		res["outs"] = runStressAll(in.Strs, in.Par)
+	case "log":
+		res["outs"] = runLogAll(in.Logs, in.Par)
 	}
 	hx.WriteOutput(res)
 }
